@@ -100,7 +100,37 @@ fn execute(fam: &Family, tape: Tape) -> RunRecord {
 }
 
 fn summarize(fam: &Family, prop: &str, rec: &RunRecord, want_sample: bool) -> Summary {
-    let violations: Vec<Violation> = (fam.oracle)(rec).into_iter().filter(|v| v.prop == prop).collect();
+    let mut violations: Vec<Violation> = (fam.oracle)(rec).into_iter().filter(|v| v.prop == prop).collect();
+    // a tracer that panics inside the code a property is about breaks that property, whatever
+    // else the oracle looks at (the oracles of C02-C04, C07, C09, C14, C16 say so themselves)
+    if let crate::run::RunEnd::Panic(p) = &rec.end {
+        let scope: Option<&[&str]> = match prop {
+            "C01" => Some(&["/trippy-core/", "/trippy-packet/"]),
+            "C06" | "C08" => Some(&["/strategy.rs"]),
+            "C10" => Some(&["/state.rs"]),
+            "C11" => Some(&["/net/", "/trippy-packet/"]),
+            "C15" => Some(&["/flows.rs", "/state.rs"]),
+            "C19" => Some(&["/state.rs", "/net/ipv4.rs", "/strategy.rs"]),
+            _ => None,
+        };
+        if let Some(files) = scope {
+            if files.iter().any(|f| p.contains(f)) && !violations.iter().any(|v| v.sig.contains(".panic.")) {
+                violations.push(Violation::new(
+                    match prop {
+                        "C01" => "C01",
+                        "C06" => "C06",
+                        "C08" => "C08",
+                        "C10" => "C10",
+                        "C11" => "C11",
+                        "C15" => "C15",
+                        _ => "C19",
+                    },
+                    format!("{}.panic.{}", prop.to_lowercase(), crate::oracle::panic_loc(p)),
+                    format!("the tracer panicked: {p}"),
+                ));
+            }
+        }
+    }
     let mut counters = rec.world.counters.clone();
     counters.add(&format!("end.{}", end_key(&rec.end)), 1);
     let nontrivial = counters
